@@ -1,6 +1,7 @@
 package main
 
 import (
+	"regexp"
 	"fmt"
 	"os"
 	"path/filepath"
@@ -198,6 +199,13 @@ func checkC17(c *core.Ctx) {
 	}
 }
 
+var c17UnionShown = regexp.MustCompile(`\((I|S): ([^()]*)\)`)
+
+// c17UnionPlain: the reference output with every displayed union value in Go's default struct form ({3}, {a}, {})
+func c17UnionPlain(want string) string {
+	return strings.ReplaceAll(c17UnionShown.ReplaceAllString(want, "{$2}"), "(N)", "{}")
+}
+
 // c17Style: a fixed layout - the answer per layout point (0 where the point has fewer answers)
 type c17Style map[string]int
 
@@ -297,6 +305,11 @@ func c17RunChunk(c *core.Ctx, sc *impl.Scratch, tiny, fc, foi string, cases []*c
 						// the recorded finding: tinyfo leaves the type parameter of a partially applied generic package_info
 						// function unresolved in the closure it emits
 						sig = "C17:tinyfo:partial-application-of-generic-package-function"
+					}
+					if tr.Status == "ok" && strings.Contains(cs.src, "\"=%v;\"") && tr.Stdout == c17UnionPlain(cs.want) {
+						// the recorded finding: tinyfo emits no String methods for union cases, so %v shows Go's struct form
+						// (attributed only when the output is exactly the reference with every union shown that way)
+						sig = "C17:tinyfo:union-displayed-without-string-method"
 					}
 					c.Outcome(sig)
 					c.Violation(sig, fmt.Sprintf("tinyfo's translation: %s (fc's translation: %s %q)\nprogram:\n%s", what, fr.Status, fr.Stdout, cs.src),
